@@ -1,16 +1,35 @@
 (* Base/C13_Types.v — run-time vocabulary of the StopWatch translation (Gen/C13_StopWatch.v)
    and of the hand model (Model/C13.v).  Definitions only.
 
-   Clock readings, durations and elapsed values are integers (Z): the harness scripts
-   clocks whose readings are integer multiples of one dyadic unit, so float subtraction
-   and comparison are exact and agree with Z. *)
+   Clock readings, durations and elapsed values live in an arbitrary carrier T with the three
+   operations the source applies to them ([num T]): the constant 0.0, subtraction, and the
+   comparisons > and >= (Python's < and <= are these with the operands swapped; max / min are
+   defined from > exactly as CPython does).  Instances: Z (exact arithmetic; the harness's dyadic
+   clocks) and binary64 floats on SpecFloat (Base/PyFloat.v; arbitrary finite doubles). *)
 From Coq Require Import ZArith List.
 Require Import OV.Base.Bytes OV.Base.Py.
 Import ListNotations.
-Open Scope Z_scope.
+
+Record num (T : Type) := mkNum {
+  n_zero : T;                      (* 0.0 (and the int 0) *)
+  n_sub : T -> T -> T;             (* a - b *)
+  n_gtb : T -> T -> bool;          (* a > b *)
+  n_geb : T -> T -> bool           (* a >= b *)
+}.
+Arguments n_zero {T}.
+Arguments n_sub {T}.
+Arguments n_gtb {T}.
+Arguments n_geb {T}.
+
+(* CPython: max(a, b) is b if b > a else a; min(a, b) is b if b < a else a *)
+Definition n_max {T} (N : num T) (a b : T) : T := if n_gtb N b a then b else a.
+Definition n_min {T} (N : num T) (a b : T) : T := if n_gtb N a b then b else a.
 
 (* oslo_utils.timeutils.Split: an (elapsed, length) pair *)
-Record split := mkSplit { sp_elapsed : Z; sp_length : Z }.
+Record split (T : Type) := mkSplit { sp_elapsed : T; sp_length : T }.
+Arguments mkSplit {T}.
+Arguments sp_elapsed {T}.
+Arguments sp_length {T}.
 
 (* the value of self._state: None or a str *)
 Definition ostate := option bytes.
@@ -36,4 +55,4 @@ Definition nonempty {A} (l : list A) : bool := match l with [] => false | _ => t
 
 (* the six components threaded through every translated method:
    _state, _started_at, _stopped_at, _splits, _duration, and the number of now() calls made so far *)
-Definition gst : Type := (ostate * option Z * option Z * list split * option Z * nat)%type.
+Definition gst (T : Type) : Type := (ostate * option T * option T * list (split T) * option T * nat)%type.
